@@ -30,7 +30,7 @@ func init() {
 	}, Run: runC08})
 }
 
-var c08Outcomes = []string{"success", oDown, oHTTP500, oTrunc, oGarbage, "badsig", "unknownsigner", oReset, oEmpty, "osfault", "stfault", oWrongDoc, "critext"}
+var c08Outcomes = []string{"success", oDown, oHTTP500, oTrunc, oGarbage, "badsig", "unknownsigner", oReset, oEmpty, "osfault", "stfault", oWrongDoc, "critext", "storefault", "storefault"}
 
 type c08op struct {
 	kind   string // "lookup" | "refresh"
@@ -56,6 +56,8 @@ func runC08(h *Harness) {
 	h.S.pPre = uint64(pre) * (1 << 32) / 1000
 	h.Disk.SmallWB = smallWB
 	sc := h.R.Scenario
+	// in half of the runs, tasks that have just given up a lock are held back at a seeded subset of such sites
+	h.S.pDelayDen, h.S.delayFor = Pick(tp, 0, 0, 5, 10), Pick(tp, 2*time.Second, 20*time.Second)
 	sc["backend"], sc["trigger"], sc["pem"], sc["extra"], sc["width"], sc["rounds"], sc["readers"], sc["pre"], sc["smallwb"] = backend, trigger, pem, extra, width, rounds, readers, pre, smallWB
 	if faulty {
 		h.R.Config = "faulty"
@@ -85,6 +87,14 @@ func runC08(h *Harness) {
 	if err := h.Provision(n); err != nil {
 		h.Violation("C08.setup", "provision-failed", "provision failed in a fault-free setup: %v", err)
 		return
+	}
+	// every store the repository creates from now on is wrapped: store-method errors can be injected at a chosen step
+	var ff *FaultyFactory
+	// (only when no store exists yet: a configured URL is loaded by Provision into an unwrapped store, and the backends
+	// refuse to take over from a store of another type)
+	if repo := n.Repo(); repo != nil && trigger != "updatecrl" {
+		ff = &FaultyFactory{Inner: repo.Factory}
+		h.Call(n, "wrap-factory", func() { repo.Factory = ff })
 	}
 	var cdpFor []string // nil: the location's URL as CDP
 	if trigger == "updatecrl" {
@@ -150,6 +160,31 @@ func runC08(h *Harness) {
 				return nil
 			}
 			target = next // the fault may or may not hit a step that matters
+		case "storefault":
+			// one store method of the STAGING store fails once (a transient error) at a chosen step; the refresh may fail
+			// (previous list kept) or, if the failing call is retried or harmless, succeed — never a partial list
+			target = next
+			if ff != nil {
+				method := Pick(tp, "InsertRevokedCert", "InsertRevokedCert", "InsertRevokedCert", "CreateStore", "StartUpdateCrl", "UpdateExtendedMetaInfo", "UpdateSignatureCertificate", "UpdateCRLLocations")
+				k := 1 + tp.Int(4+extra)
+				if method != "InsertRevokedCert" {
+					k = 1
+				}
+				seen := 0
+				ff.SetPlan(func(m string, temporary bool) error {
+					if !temporary || m != method {
+						return nil
+					}
+					seen++
+					if seen == k {
+						stepFaultFired = true
+						return ErrIO
+					}
+					return nil
+				})
+				sc["storefault"] = fmt.Sprintf("%s#%d", method, k)
+				restore = func() { ff.SetPlan(nil) }
+			}
 		case "stfault":
 			target = next
 			if backend == "disk" {
